@@ -25,6 +25,17 @@ theorem collvarint_roundtrip (n : Nat) (r : List Nat) (h : n < 2 ^ 32) :
 example : decode (encode 270549119 ++ [7]) = some (270549119, [7]) :=
   collvarint_roundtrip 270549119 [7] (by decide)
 
+/-- Unique parsing: the varint is a prefix code — a stream that starts with the code of `n` cannot
+    also be read as starting with the code of a different `m`, whatever follows either. -/
+theorem collvarint_prefix_free (n m : Nat) (r r' : List Nat) (hn : n < 2 ^ 32) (hm : m < 2 ^ 32)
+    (h : encode n ++ r = encode m ++ r') : n = m ∧ r = r' := by
+  have h1 := collvarint_roundtrip n r hn
+  rw [h, collvarint_roundtrip m r' hm] at h1
+  have h2 := Option.some.inj h1
+  exact ⟨(congrArg Prod.fst h2).symm, (congrArg Prod.snd h2).symm⟩
+
+example : encode 127 ++ [5] ≠ encode 128 ++ [5] := by decide
+
 /-- Truncated input is an error: every proper prefix of an encoding is rejected. -/
 theorem collvarint_truncated_err (n m : Nat) (h : n < 2 ^ 32) (hm : m < (encode n).length) :
     decode ((encode n).take m) = none :=
@@ -77,6 +88,18 @@ theorem string_roundtrip (s r : List Nat) (h : ∀ b ∈ s, 1 ≤ b ∧ b ≤ 12
 
 example : decodeString (encodeString [72, 71, 32, 9] ++ [1]) = some ([72, 71, 32, 9], [1]) :=
   string_roundtrip _ _ (by decide)
+
+/-- Unique parsing of NUL-terminated strings: two different names never serialise to streams one of
+    which could be read as the other (the name table of an archive determines its stream). -/
+theorem string_prefix_free (s s' r r' : List Nat) (hs : ∀ b ∈ s, 1 ≤ b ∧ b ≤ 127)
+    (hs' : ∀ b ∈ s', 1 ≤ b ∧ b ≤ 127) (h : encodeString s ++ r = encodeString s' ++ r') :
+    s = s' ∧ r = r' := by
+  have h1 := string_roundtrip s r hs
+  rw [h, string_roundtrip s' r' hs'] at h1
+  have h2 := Option.some.inj h1
+  exact ⟨(congrArg Prod.fst h2).symm, (congrArg Prod.snd h2).symm⟩
+
+example : encodeString [72, 71] ++ [1] ≠ encodeString [72] ++ [71, 1] := by decide
 
 /-- Sample names come back exactly, in order. -/
 theorem sample_names_roundtrip (names : List Name) (hlen : names.length < 2 ^ 32)
